@@ -30,6 +30,7 @@ from .exceptions import UnknownFilterError
 from .output import LimitedStringIO
 from .undefined import UNDEFINED
 from .utils import ReadOnlyChainMap
+from .utils import getitem
 
 if TYPE_CHECKING:
     from liquid2 import TokenT
@@ -207,14 +208,14 @@ class RenderContext:
 
         if key == "size":
             try:
-                return obj["size"]
+                return getitem(obj, "size")
             except (KeyError, IndexError, TypeError):
                 if isinstance(obj, Sized):
                     return _len(obj)
                 raise
         if key == "first":
             try:
-                return obj["first"]
+                return getitem(obj, "first")
             except (KeyError, IndexError, TypeError):
                 if isinstance(obj, Mapping) and obj:
                     return next(itertools.islice(obj.items(), 1))
@@ -223,13 +224,13 @@ class RenderContext:
                 raise
         if key == "last":
             try:
-                return obj["last"]
+                return getitem(obj, "last")
             except (KeyError, IndexError, TypeError):
                 if isinstance(obj, Sequence):
                     return obj[-1]
                 raise
 
-        return obj[key]
+        return getitem(obj, key)
 
     async def get_item_async(self, obj: Any, key: Any) -> Any:
         """An async item getter for resolving paths."""
@@ -237,7 +238,7 @@ class RenderContext:
         async def _get_item(obj: Any, key: Any) -> object:
             if hasattr(obj, "__getitem_async__"):
                 return await obj.__getitem_async__(key)
-            return obj[key]
+            return getitem(obj, key)
 
         if hasattr(key, "__liquid__"):
             key = key.__liquid__()
